@@ -150,7 +150,8 @@ func genStmts() string {
 			{"disc/discovery.go", "Member.handleResponse"}, {"disc/discovery.go", "Member.handleMembershipMessage"}, {"disc/discovery.go", "Member.respondToQuery"}}},
 		{"rbc", []fref{{"rbc/rbc.go", "Receiver.Receive"}, {"rbc/rbc.go", "Receiver.registerMsg"}, {"rbc/rbc.go", "Receiver.initIfNeeded"},
 			{"threshold/threshold.go", "Scheme.handleMPC"}, {"threshold/threshold.go", "Scheme.handleRBC"}, {"threshold/threshold.go", "Scheme.handleAck"},
-			{"threshold/threshold.go", "rbcFilter.Receive"}, {"threshold/threshold.go", "threadSafeRBC.Receive"}}},
+			{"threshold/threshold.go", "rbcFilter.Receive"}, {"threshold/threshold.go", "threadSafeRBC.Receive"},
+			{"threshold/threshold.go", "Scheme.runDKG"}, {"threshold/threshold.go", "Scheme.prepareSigning"}}},
 		{"dkg", []fref{{"mpc/bls/mpc.go", "TBLS.OnMsg"}, {"mpc/bls/mpc.go", "TBLS.KeyGen"}, {"mpc/bls/mpc.go", "TBLS.waitForShareDistribution"},
 			{"mpc/bls/mpc.go", "TBLS.waitForCommitmentDistribution"}, {"mpc/bls/mpc.go", "TBLS.waitForDeCommitmentDistribution"}, {"mpc/bls/mpc.go", "TBLS.combineShares"},
 			{"mpc/bls/mpc.go", "TBLS.commitPhase"}, {"mpc/bls/mpc.go", "TBLS.revealPhase"}, {"mpc/bls/mpc.go", "TBLS.shareDistribution"},
